@@ -1,6 +1,7 @@
 \* intended switches, thorough family: TLC must pass; PROG lines feed the replay
 CONSTANTS LoopDelayOwnFreeVars = TRUE LoopDurationMapped = TRUE ParamValuesReachDelays = TRUE
           ChecksBeforeSave = TRUE AliasesReachDurations = TRUE
+          DelayInputsForbidden = TRUE ExpandKeepsElements = TRUE
           Family = "thorough"
 INIT Init
 NEXT Next
